@@ -20,7 +20,7 @@ ASSUMPTIONS = [
     "existence queries reject corruption on local stores only (the base store's query is existence-only, as the statement says)",
 ]
 MONITORS = "verdicts of check / oids_exist / checkout / verifying add compared with the harness's own ground truth of which objects were tampered; file presence and mode bits re-read from disk"
-REQUIRED_COUNTERS = ["verify_add_over_intact_object", "read_only_handle_probes", "used_intact_before_tamper", "probe/check", "probe/oids_exist", "probe/checkout", "probe/verify-add", "state/warm", "state/cold", "state/none",
+REQUIRED_COUNTERS = ["verify_transfer_rounds", "verify_add_over_intact_object", "read_only_handle_probes", "used_intact_before_tamper", "probe/check", "probe/oids_exist", "probe/checkout", "probe/verify-add", "state/warm", "state/cold", "state/none",
                      "tampered_objects", "intact_objects_checked", "store/local", "store/base", "tamper/truncate", "tamper/append",
                      "tamper/same-length", "tamper/diff-length", "tamper/rename", "unprotected_intact_checked"]
 
@@ -133,6 +133,42 @@ def run_shard(ctx):
                     if os.path.exists(p) and file_bytes(p) != files[k]:
                         res.violation("verifying-add-retained-mismatching-object/over-intact-object",
                                       f"after a verifying re-add of other bytes, object {good} holds bytes that do not match its name", case=case, detail=cfg)
+                # a verifying transfer: source store (base class, no self-check) with a corrupt object; the verifying destination
+                # must not retain anything that does not match its name - directory objects included
+                if rng.random() < 0.5:
+                    import json as _j
+
+                    from dvc_data.hashfile.transfer import transfer as _transfer
+
+                    from ..oracle import audit_store, canonical_dir_bytes, list_store as _ls
+
+                    res.count("verify_transfer_rounds")
+                    sroot = os.path.join(d, "vsrc")
+                    slocal = env.local_odb(sroot)
+                    _s1, _m1, sobj, _r1 = env.stage_and_transfer(slocal, ws)
+                    sbase = env.base_odb(sroot)
+                    sobjs, _t, _s2 = _ls(sroot)
+                    victim = rng.choice(sorted(sobjs))
+                    os.chmod(sobjs[victim], 0o644)
+                    if victim.endswith(DIR_SUFFIX):
+                        lst = _j.loads(file_bytes(sobjs[victim]))
+                        with open(sobjs[victim], "wb") as f:
+                            f.write(_j.dumps(lst, indent=2).encode())  # same listing, other bytes: does not hash to its name
+                    else:
+                        with open(sobjs[victim], "ab") as f:
+                            f.write(b"!corrupt")
+                    droot = os.path.join(d, "vdest")
+                    vdest = env.odb_of_class(cls, droot, state=state, verify=True)
+                    ids = {sobj.hash_info} | {hi for _k, _m2, hi in sobj}
+                    try:
+                        _transfer(sbase, vdest, ids, verify=True, jobs=rng.choice([1, 4]), cache_odb=sbase)
+                    except Exception:  # noqa: BLE001  (loud is fine)
+                        pass
+                    probs, _objs, _nt = audit_store(droot, "md5", check_dirs=False)
+                    for kind, oid, info_ in probs[:2]:
+                        res.violation("verifying-transfer-retained-mismatching-object/" + ("dir-object" if oid.endswith(DIR_SUFFIX) else "file-object"),
+                                      f"after transfer(verify=True) the destination holds {oid} whose bytes do not match its name", case=case,
+                                      detail={**cfg, "victim": victim})
                 if state:
                     state.close()
                 env.reset_staging()
